@@ -191,7 +191,7 @@ def run_twin(case):
     NT = collections.namedtuple('NT', ['world', 'entity'])
 
     worlds = {'A': desper.World(), 'B': desper.World()}
-    ids = [1, 2, 'e', ('t', 1)]
+    ids = [0, 1, '', ('t', 1)]
     label = [0]
     state = {'pending': set(), 'replaced': False}
     nontrivial = False
